@@ -50,7 +50,14 @@ func runSolver(ctx context.Context, sp solverSpec, file string, timeout time.Dur
 	_ = cmd.Run()
 	ms := time.Since(start).Milliseconds()
 	text := out.String()
-	first := strings.TrimSpace(strings.SplitN(text, "\n", 2)[0])
+	first := ""
+	for _, l := range strings.Split(text, "\n") {
+		// z3 prints warnings (e.g. "'if' cannot be used in patterns", the pattern is then ignored) before its answer
+		if l = strings.TrimSpace(l); l != "" && !strings.HasPrefix(l, "WARNING:") {
+			first = l
+			break
+		}
+	}
 	res := "error"
 	switch {
 	case first == "unsat":
